@@ -404,10 +404,11 @@ func harnesses(r *fw.Run) []fw.HarnessSpec {
 				mask |= 1 << i
 			}
 		}
+		abandoned := c.ChooseFree(2) == 1
 		h := ref.ReprHash()
-		c.Case(append(h[:], byte(mask)), mask != 0)
-		c.Sample(map[string]any{"dag": ref.Describe(), "pruned_cells_mask": mask})
-		c.Label("dag=%s pruned mask=%b", desc, mask)
+		c.Case(append(h[:], byte(mask), byte(boolToInt(abandoned))), mask != 0)
+		c.Sample(map[string]any{"dag": ref.Describe(), "pruned_cells_mask": mask, "abandoned_cursor_first": abandoned})
+		c.Label("dag=%s pruned mask=%b abandoned cursor first=%v", desc, mask, abandoned)
 		c.Try("panic:cursor", func() {
 			root, err := conv.ToTongo(ref, true)
 			if err != nil {
@@ -418,6 +419,15 @@ func harnesses(r *fw.Run) []fw.HarnessSpec {
 			if err != nil {
 				c.Fail("prover-error", "%v", err)
 				return
+			}
+			// a prover serves many proofs: a cursor that was walked and pruned but never turned into a proof (a lookup
+			// that gave up half-way) leaves nothing behind for the next one
+			if abandoned {
+				ab := prover.Cursor()
+				ab.Prune()
+				for i := range ref.Refs {
+					ab.Ref(i).Prune()
+				}
 			}
 			cur := prover.Cursor()
 			// reach every cell of the set through Ref paths (first path found)
@@ -521,6 +531,13 @@ func harnesses(r *fw.Run) []fw.HarnessSpec {
 		})
 	})
 	return hs
+}
+
+func boolToInt(b bool) int {
+	if b {
+		return 1
+	}
+	return 0
 }
 
 func keysOf(es []dict.Entry) []string {
